@@ -30,11 +30,11 @@ def ant(i):
 
 class StubDataSet(DataSet):
     def __init__(self, T, F, n_ants, corrprods, scan_events, scan_states, cs_events, cs_labels,
-                 tgt_events, tgt_indices, targets):
+                 tgt_events, tgt_indices, targets, sideband=1):
         super().__init__(name='stub', ref_ant='array')
         ants = [ant(i) for i in range(n_ants)]
         self.subarrays = [Subarray(ants, corrprods)]
-        self.spectral_windows = [SpectralWindow(centre_freq=F0, channel_width=WIDTH, num_chans=F, sideband=1)]
+        self.spectral_windows = [SpectralWindow(centre_freq=F0, channel_width=WIDTH, num_chans=F, sideband=sideband)]
         ts = T0 + PERIOD * np.arange(T)
 
         def const(v):
@@ -107,14 +107,14 @@ def gen_observation(rng):
         tgt_indices.append(rng.choice(choices))
     return dict(T=T, F=F, n_ants=n_ants, corrprods=[list(c) for c in cps], scan_events=scan_events,
                 scan_states=scan_states, cs_events=cs_events, cs_labels=cs_labels, tgt_events=tgt_events,
-                tgt_indices=tgt_indices, n_targets=n_targets)
+                tgt_indices=tgt_indices, n_targets=n_targets, sideband=rng.choice([1, 1, -1]))
 
 
 def build(obs):
     targets = [katpoint.Target(d) for d in TARGET_DESCR[:obs['n_targets']]]
     d = StubDataSet(obs['T'], obs['F'], obs['n_ants'], [tuple(c) for c in obs['corrprods']], obs['scan_events'],
                     obs['scan_states'], obs['cs_events'], obs['cs_labels'], obs['tgt_events'],
-                    obs['tgt_indices'], targets)
+                    obs['tgt_indices'], targets, sideband=obs.get('sideband', 1))
     return d, targets
 
 
@@ -143,7 +143,8 @@ def ctx_line(obs):
     ts = [2 * i for i in range(T)]                 # half-dump units relative to T0
     tags = all_tags(obs)
     tgt_tags = [[tags.index(t) for t in katpoint.Target(d).tags] for d in TARGET_DESCR[:obs['n_targets']]]
-    fr = [2 * (k - F // 2) for k in range(F)]      # half-channel units relative to F0
+    # half-channel units relative to F0; a lower-sideband window has its frequencies falling with channel index
+    fr = [2 * obs.get('sideband', 1) * (k - F // 2) for k in range(F)]
     f = [str(T), str(F), str(len(obs['corrprods'])),
          ','.join(map(str, ts)), '1',
          ','.join(str(STATES.index(s)) for s in per_dump(obs['scan_events'], obs['scan_states'])),
